@@ -758,7 +758,7 @@ class ModelHist(Engine):
         if self.prop == "C24":
             return ["perm"]
         if self.prop == "C22":
-            return ["classical", "temporal", "contingent", "hierarchical", "classical", "hierarchical", "ma"]
+            return ["classical", "temporal", "contingent", "hierarchical", "temporal", "hierarchical", "ma"]
         return ["classical", "temporal", "contingent", "classical"]
 
     # ----------------------------------------------------------------- vocabulary
@@ -1102,7 +1102,7 @@ class ModelHist(Engine):
                     continue
                 op = {"op": "act_add_effect", "action": an, "effect": ed}
                 if ad.get("durative"):
-                    op["timing"] = ro.choice([["start", 0], ["end", 0], ["start", 1]])
+                    op["timing"] = ro.choice([["start", 0], ["start", 0], ["end", 0], ["start", 1]])
                 prior = ad.setdefault("_added", [])
                 if fk == "value":
                     op["faulty"], op["why"] = "value", ed.pop("why")
@@ -1226,13 +1226,28 @@ class ModelHist(Engine):
                 sched.append({"op": "clone", "of": src, "id": nid})
                 replicas.append(nid)
             to = list(replicas)
+            cross = None
             if len(replicas) > 1:
                 x = rs.random()
-                if x < 0.12:
+                effy = op["op"] in ("act_add_effect", "add_timed_effect") and op.get("effect", {}).get("cond") is None \
+                    and not op.get("faulty")
+                if x < 0.12 or (effy and x < 0.3):
                     to = [rs.choice(replicas)]
+                    if effy and rs.random() < 0.6:
+                        # ... and the OTHER side gets an effect aimed at the same fluent (same timing): what one replica
+                        # was told must not decide what the other accepts
+                        ed2 = self.clash_with(rs, world, op["effect"])
+                        if ed2 is not None:
+                            other = rs.choice([r_ for r_ in replicas if r_ != to[0]])
+                            cross = dict(op, effect=ed2, to=[other], faulty="maybe-conflict")
+                            if op["effect"].get("kind", "assign") == "assign" and ed2.get("kind") in ("inc", "dec"):
+                                # the increase first, the assignment second (on the other side)
+                                op, cross = dict(op, effect=ed2), dict(cross, effect=op["effect"])
                 else:
                     rs.shuffle(to)
             sched.append(dict(op, to=to))
+            if cross is not None:
+                sched.append(cross)
         # the same constants handed over as expression nodes instead of python values / model objects (30% of the
         # operations that carry a constant); decided by a stream of its own
         rn = stream(seed, "as-node")
@@ -1397,6 +1412,16 @@ class ModelHist(Engine):
                      f"{json.dumps(idf_bad)}",
                      cls="accepted-per-type-default")
         reps = {"P0": R0}
+        # C22: every replica has a CLONE-FREE TWIN: a problem built from scratch by the very operations that were
+        # delivered to the replica (for a clone: to its source up to the clone, then to itself).  A replica must accept
+        # exactly what its twin accepts -- whatever was done meanwhile to the problems it was cloned from or into.
+        twins, delivered = {}, {}
+        if self.prop == "C22":
+            try:
+                twins["P0"] = Replica(W, script["kind"], "P", script.get("initial_defaults"))
+                delivered["P0"] = []
+            except Exception:
+                twins = {}
         in_sync = {}    # frozenset({a,b}) -> bool
         faulty_at = {}  # replica -> op index of the last value-faulty op
         judged_after = {}
@@ -1417,6 +1442,18 @@ class ModelHist(Engine):
                     ctx.fail("C22.clone-succeeds", f"op {i}: clone() raised {type(ex).__name__}: {ex}", cls=type(ex).__name__)
                     continue
                 reps[op["id"]] = Replica.wrap(W, src.kind, cp)
+                if op["of"] in twins:
+                    try:
+                        T = Replica(W, script["kind"], "P", script.get("initial_defaults"))
+                        for op_ in delivered[op["of"]]:
+                            try:
+                                apply_op(T, op_)
+                            except BuildError:
+                                pass
+                        twins[op["id"]] = T
+                        delivered[op["id"]] = list(delivered[op["of"]])
+                    except Exception:
+                        pass
                 in_sync[frozenset((op["of"], op["id"]))] = True
                 ctx.check("C22.clone-equal", self.equal(cp, src.p, ctx, i),
                           f"op {i}: clone of {op['of']} is not equal to it", cls="clone-not-equal")
@@ -1445,6 +1482,17 @@ class ModelHist(Engine):
                 ctx.ev(i, "skipped-unbuildable")
                 continue
             others = [r for r in reps if r not in to]
+            for t in to:
+                if t in twins:
+                    delivered[t].append(op)
+                    try:
+                        tw = apply_op(twins[t], op)
+                    except BuildError:
+                        continue
+                    ctx.check("C22.same-acceptance", tw[0] == results[t][0],
+                              f"op {i} ({k} {json.dumps({x: y for x, y in op.items() if x != 'to'})[:300]}) on {t}: "
+                              f"{results[t][0] if results[t][0] == 'ok' else results[t][1]}; a problem built from scratch by "
+                              f"the same operations: {tw[0] if tw[0] == 'ok' else tw[1]}", cls="differs-from-clone-free-twin")
             outc = "/".join(results[t][0] if results[t][0] == "ok" else results[t][1] for t in to)
             ctx.ev(i, k, to, "->", outc)
             ctx.outcome(k, results[to[0]][0] if results[to[0]][0] == "ok" else results[to[0]][1])
